@@ -36,6 +36,9 @@ class _RabbitConsumer(ConsumerT):
         self.category = category
         self.server_side_cancel_event = asyncio.Event()
         self._consumer_tag: str | None = None
+        # message id -> delivery tag of the deliveries made to this consumer
+        # (pruned to the unsettled ones on every delivery)
+        self._delivered: dict[str, int] = {}
         self.__is_paused: bool = False
         self.__is_consuming: bool = False
 
@@ -140,6 +143,13 @@ class _RabbitConsumer(ConsumerT):
                     "while finishing consumer.",
                     extra={"routing_key": key},
                 )
+        # a message handed out by consume() while the caller was being cancelled is in nobody's
+        # hands: return every delivery of this consumer that has not been settled
+        for id_, tag in self._delivered.items():
+            if self.broker._id_to_delivery_tag.get(id_) == tag:
+                del self.broker._id_to_delivery_tag[id_]
+                rejects.append(self.broker._channel.basic_reject(tag))
+        self._delivered.clear()
         await asyncio.gather(*rejects)
 
     async def on_new_message(self, message: aiormq.abc.DeliveredMessage) -> None:
@@ -202,6 +212,12 @@ class _RabbitConsumer(ConsumerT):
 
         # save delivery tag for the future
         self.broker._id_to_delivery_tag[msg_id] = message.delivery_tag
+        self._delivered = {
+            id_: tag
+            for id_, tag in self._delivered.items()
+            if self.broker._id_to_delivery_tag.get(id_) == tag
+        }
+        self._delivered[msg_id] = message.delivery_tag
 
         # create a key object and put message in in-memory queue to be picked up soon
         await self.queue.put(
